@@ -320,6 +320,28 @@ struct MinusCtl
 };
 void use_minus_ctl(MinusCtl& a, const MinusCtl& b) { a -= b; }
 
+// S12: a switch that swaps one side only
+enum SideCtl { ON_LOWER, ON_UPPER, BASIC };
+SideCtl swap_one_side_only(SideCtl s)
+{
+   SideCtl r = BASIC;
+
+   switch(s)
+   {
+   case ON_LOWER:
+      r = ON_UPPER;
+      break;
+
+   case ON_UPPER:
+   case BASIC:
+   default:
+      r = s;
+      break;
+   }
+
+   return r;
+}
+
 // S9: a comparator that transforms only one of its interchangeable arguments
 bool one_sided_comparator(char ch1, char ch2)
 {
